@@ -375,6 +375,29 @@ def run(ctx):
             return seq
         return ['?']
     seq = _sym(parg)
+    # _load_config_files wraps anything that is not a LIST into a one-element list (meant for a single directory): a tuple of directories becomes one
+    # entry, and only the first directory that has the file is read
+    def _is_list_expr(e, depth=0):
+        if isinstance(e, ast.List):
+            return True
+        if isinstance(e, ast.Tuple):
+            return False
+        if isinstance(e, ast.Call) and last_attr(e) == 'jupyter_config_path':
+            return True
+        if isinstance(e, ast.Call) and dotted(e.func) == 'list':
+            return True
+        if isinstance(e, ast.BinOp) and isinstance(e.op, ast.Add):
+            return _is_list_expr(e.left, depth) and _is_list_expr(e.right, depth)
+        if isinstance(e, ast.Name) and depth < 3:
+            ds = [v for v, k, st_ in bdefs.get(e.id, []) if k == 'assign']
+            return len(ds) == 1 and _is_list_expr(ds[0], depth + 1)
+        return False
+    lf_ = repo.func(CFGM + ':_load_config_files')
+    wraps_non_list = any(isinstance(c_, ast.Call) and dotted(c_.func) == 'isinstance' and len(c_.args) == 2 and dotted(c_.args[1]) == 'list' for c_ in ast.walk(lf_))
+    if wraps_non_list and not _is_list_expr(parg):
+        ctx.inst('R19.3', CFGM + ':build_config', 'search path expression %s' % ast.unparse(parg)[:60], False,
+                 'the search path is not a list: _load_config_files wraps a non-list into [path], so the whole tuple goes to ONE loader, which reads only the first directory '
+                 'that has nbdime_config.json -- lower-priority files are ignored instead of layered underneath', lcf[0])
     if 'JUP' not in seq:
         raise AnalysisError('build_config: jupyter_config_path() is no longer the search path')
     if '?' in seq:
